@@ -112,7 +112,7 @@ type run struct {
 
 func newRun(sc *scenario, initial *snapshot, occurred int, pushPhase bool, seed uint64) *run {
 	r := &run{
-		sc: sc, watchdog: 40 * time.Second, store: initial.clone(), occurred: occurred, pushPhase: pushPhase,
+		sc: sc, watchdog: 25 * time.Second, store: initial.clone(), occurred: occurred, pushPhase: pushPhase,
 		errRand: rand.New(rand.NewPCG(seed, uint64(sc.Idx)+77)),
 		probe:   map[int64]int64{}, waiters: map[int64]chan struct{}{}, seen: map[int64]bool{},
 		genuineChTL: map[int64]int{}, wprobePushed: map[int64]int{}, wprobeCount: map[int64]int{}, wprobeNeed: map[int64]int{},
